@@ -34,7 +34,14 @@ impl<T> IpMatcher<T> {
 
         match route.ips() {
             Some(ips) => {
+                let mut seen = HashSet::new();
+
                 for ip in ips {
+                    // The same constraint given twice must not store (and count) the route twice
+                    if !seen.insert(ip) {
+                        continue;
+                    }
+
                     self.matchers
                         .entry(ip.clone())
                         .or_insert_with(|| MethodMatcher::new(config.clone()))
